@@ -55,6 +55,18 @@ def classify(case, detail):
             return "list-coercion-skipped-when-operation-not-first"
         if "default_listcoerce" in fl:
             return "default-value-nested-list-not-coerced"
+    # an uncoerced value inside a list of input objects makes default injection skip that item without
+    # advancing its index: the item is overwritten by the next one (the request then even passes
+    # variables validation, with other argument values)
+    argdiff = False
+    m = re.search(r'orig=(.*) norm=(.*)$', detail)
+    if m and m.group(1).startswith('(s "') and m.group(2).startswith('(s "'):
+        argdiff = True
+    if (clause.startswith("exec_preserved") and argdiff) or clause.startswith("idempotent"):
+        if "op_not_first" in fl and listco:
+            return "list-coercion-skipped-when-operation-not-first"
+        if "default_listcoerce" in fl:
+            return "default-value-nested-list-not-coerced"
     if clause.startswith("exec_preserved") or clause.startswith("idempotent") or clause == "canonical":
         if "null_in_object_list" in fl:
             if not clause.startswith("exec_preserved"):
@@ -63,6 +75,10 @@ def classify(case, detail):
             m = re.search(r'orig=(.*) norm=(.*)$', detail)
             if m and m.group(1).startswith('(s "') and m.group(2).startswith('(s "'):
                 return "default-injection-null-list-item"
+    if clause.startswith("exec_preserved") and "default_null_list" in fl:
+        m = re.search(r'orig=(.*) norm=(.*)$', detail)
+        if m and m.group(1).startswith('(s "') and ":null" in m.group(1) and "[null]" in m.group(2):
+            return "null-default-of-list-variable-wrapped"
     if clause == "canonical":
         m = re.search(r' A="(.*)" B="(.*)" varsA=(.*) varsB=(.*) variant=', detail)
         if m and m.group(1) != m.group(2) and m.group(3) == m.group(4):
